@@ -110,14 +110,17 @@ def reference(shadow, op, kv, vv):
     try:
         if k == "si":
             vop = (k, kv.pure(0, op[1]), vv.pure(0, op[2]))
-        elif k in ("up", "um", "ug", "io", "iom"):
+        elif k in ("up", "um", "ug", "io", "iom") or k in M.SHAPED_OPS:
             ps = []
-            for i, el in enumerate(op[1]):
+            els = op[1]
+            if k in M.SHAPED_OPS:       # what the builtin dict reads from the argument object: keys() + __getitem__
+                els = M.shaped(M.SHAPED_OPS[k][1], op[1])[1]
+            for i, el in enumerate(els):
                 a, b = el            # a malformed element raises here, like the builtin does ...
                 a, b = kv.pure(i, a), vv.pure(i, b)
                 hash(a)              # ... and an unhashable key raises when its pair is reached
                 ps.append((a, b))
-            vop = ("io" if k in ("io", "iom") else "up", ps)
+            vop = ("io" if k in ("io", "iom") or (k in M.SHAPED_OPS and M.SHAPED_OPS[k][0] == "ior") else "up", ps)
         elif k == "sd":
             vop = op if op[1] in shadow else (k, kv.pure(0, op[1]), vv.pure(0, op[2]))
         elif k == "sd1":
@@ -242,7 +245,37 @@ def run_impl(case):
             tags.add("owner:" + ("falsy" if kind == "tdof" else "truthy"))
         else:
             notifiers = []
-            td = TraitDict(init, key_validator=kv, value_validator=vv, notifiers=notifiers)
+            init_arg = init
+            if len(kind) == 3 and kind[2] in M.SHAPES:
+                # the constructor given the initial items in another shape the builtin dict accepts; the
+                # reference is the builtin dict built from the same object, its items validated in order
+                init_arg, read = M.shaped(kind[2], init)
+                tags.add("init-shape:" + kind[2])
+                try:
+                    want = {}
+                    for i, (a, b) in enumerate(list(dict(M.shaped(kind[2], init)[0]).items())):
+                        want[kv.pure(i, a)] = vv.pure(i, b)
+                    wexc = None
+                except Exception as e:
+                    want, wexc = None, e
+                kv.reset()
+                vv.reset()
+                try:
+                    got = dict(TraitDict(M.shaped(kind[2], init)[0], key_validator=kv, value_validator=vv))
+                    gexc = None
+                except Exception as e:
+                    got, gexc = None, e
+                kv.reset()
+                vv.reset()
+                if (wexc is None) != (gexc is None) or (wexc is not None and M.exc_name(wexc) != M.exc_name(gexc)):
+                    hits.append(_hit("init-exception-differs:shape-" + kind[2], "dict(arg) then validation: %s, TraitDict(arg): %s" % (
+                        M.exc_name(wexc) if wexc is not None else None, M.exc_name(gexc) if gexc is not None else None)))
+                elif wexc is None and _items(want) != _items(got):
+                    hits.append(_hit("init-contents-differ:shape-" + kind[2], "TraitDict(arg) differs from the builtin dict built from "
+                                     "the same argument", expected=_items(want), observed=_items(got)))
+                if gexc is not None:
+                    return "err " + M.exc_name(gexc), hits, ["init-err"] + sorted(tags)
+            td = TraitDict(init_arg, key_validator=kv, value_validator=vv, notifiers=notifiers)
             if td.notifiers is not notifiers:
                 hits.append(_hit("notifier-list-replaced", "TraitDict does not use the (empty) notifiers list it "
                                  "was given"))
